@@ -14,6 +14,18 @@
 #include "schedule.h"
 #include "tasking_system_init.h"
 
+// Named scheduling points for verification harnesses; they expand to nothing
+// unless RKCOMMON_VERIF is defined (see ../verif_hook.h)
+#ifdef RKCOMMON_VERIF
+#include "../verif_hook.h"
+#else
+#define RKCOMMON_VERIF_POINT(name)
+#define RKCOMMON_VERIF_SCOPE(name)
+#define RKCOMMON_VERIF_VALUE_BEGIN(name)
+#define RKCOMMON_VERIF_VALUE_END
+#define RKCOMMON_VERIF_THEN(name)
+#endif
+
 namespace rkcommon {
   namespace tasking {
 
@@ -78,7 +90,10 @@ namespace rkcommon {
       loop                             = l;
 
       auto mainLoop = [l, fcn]() {
+        RKCOMMON_VERIF_SCOPE("loop.exit")
+        RKCOMMON_VERIF_POINT("loop.top")
         while (l->threadShouldBeAlive) {
+          RKCOMMON_VERIF_POINT("loop.after_alive_check")
           if (!l->threadShouldBeAlive)
             return;
 
@@ -86,16 +101,28 @@ namespace rkcommon {
           // clears shouldBeRunning and then waits for insideLoopBody to be
           // false, so (both being seq_cst) either we see the cleared flag
           // here and do not run the body, or stop() sees us inside and waits.
+          RKCOMMON_VERIF_POINT("loop.before_set_inside")
           l->insideLoopBody = true;
+          RKCOMMON_VERIF_POINT("loop.before_running_check")
           if (l->shouldBeRunning) {
+            RKCOMMON_VERIF_POINT("loop.body_enter")
             fcn();
+            RKCOMMON_VERIF_POINT("loop.body_exit")
             l->insideLoopBody = false;
+            RKCOMMON_VERIF_POINT("loop.after_clear_inside")
           } else {
+            RKCOMMON_VERIF_POINT("loop.idle")
             l->insideLoopBody = false;
+            RKCOMMON_VERIF_SCOPE("loop.unlocked")
+            RKCOMMON_VERIF_POINT("loop.before_lock")
             std::unique_lock<std::mutex> lock(l->runningMutex);
             l->runningCond.wait(lock, [&] {
+              RKCOMMON_VERIF_POINT("loop.pred_enter")
+              RKCOMMON_VERIF_VALUE_BEGIN("loop.pred_evaluated")
               return l->shouldBeRunning.load() ||
+                     RKCOMMON_VERIF_THEN("loop.pred_mid")
                      !l->threadShouldBeAlive.load();
+              RKCOMMON_VERIF_VALUE_END
             });
           }
         }
@@ -116,12 +143,19 @@ namespace rkcommon {
       // are atomic, because we need to sync with the condition variable waiting
       // state on the async thread. Otherwise we might signal and the thread
       // will miss it, since it wasn't watching.
+      RKCOMMON_VERIF_SCOPE("dtor.after_join")
       {
+        RKCOMMON_VERIF_POINT("dtor.before_lock")
         std::unique_lock<std::mutex> lock(loop->runningMutex);
+        RKCOMMON_VERIF_POINT("dtor.locked")
         loop->threadShouldBeAlive = false;
+        RKCOMMON_VERIF_POINT("dtor.after_clear_alive")
         loop->shouldBeRunning     = false;
+        RKCOMMON_VERIF_POINT("dtor.after_clear")
       }
+      RKCOMMON_VERIF_POINT("dtor.unlocked")
       loop->runningCond.notify_one();
+      RKCOMMON_VERIF_POINT("dtor.after_notify")
 
       if (backgroundThread.joinable()) {
         backgroundThread.join();
@@ -130,24 +164,34 @@ namespace rkcommon {
 
     inline void AsyncLoop::start()
     {
+      RKCOMMON_VERIF_SCOPE("start.return")
       if (!loop->shouldBeRunning) {
+        RKCOMMON_VERIF_POINT("start.after_check")
         // Note that the mutex here is still required even though these vars
         // are atomic, because we need to sync with the condition variable
         // waiting state on the async thread. Otherwise we might signal and the
         // thread will miss it, since it wasn't watching.
         {
           std::unique_lock<std::mutex> lock(loop->runningMutex);
+          RKCOMMON_VERIF_POINT("start.locked")
           loop->shouldBeRunning = true;
+          RKCOMMON_VERIF_POINT("start.after_set")
         }
+        RKCOMMON_VERIF_POINT("start.unlocked")
         loop->runningCond.notify_one();
+        RKCOMMON_VERIF_POINT("start.after_notify")
       }
     }
 
     inline void AsyncLoop::stop()
     {
+      RKCOMMON_VERIF_SCOPE("stop.return")
       if (loop->shouldBeRunning) {
+        RKCOMMON_VERIF_POINT("stop.after_check")
         loop->shouldBeRunning = false;
+        RKCOMMON_VERIF_POINT("stop.after_clear")
         while (loop->insideLoopBody.load()) {
+          RKCOMMON_VERIF_POINT("stop.spin")
           std::this_thread::yield();
         }
       }
